@@ -293,6 +293,28 @@ func runC06(e *Env) {
 		}
 	}
 	r.Count("functions analysed (assembler.go + Policy.Assemble)", len(fns))
+	// E2.types: positions and label numbers are computed in the exported types Index and Label. "However far away" and "does
+	// not depend on its size" need types that do not wrap for programs the builder accepts: at least 32 bits. (An unsigned
+	// Index only changes what happens for backward jumps, which the property excludes.)
+	if rp := p.Pkgs[load.PkgRoot]; rp != nil {
+		for _, tn := range []string{"Index", "Label"} {
+			o, _ := rp.Types.Scope().Lookup(tn).(*types.TypeName)
+			if o == nil {
+				continue
+			}
+			b, _ := o.Type().Underlying().(*types.Basic)
+			good, why := false, "not an integer type"
+			if b != nil && b.Info()&types.IsInteger != 0 {
+				wide := b.Kind() != types.Int8 && b.Kind() != types.Uint8 && b.Kind() != types.Int16 && b.Kind() != types.Uint16
+				if wide {
+					good = true
+				} else {
+					why = "narrower than 32 bits: positions wrap in programs the builder accepts"
+				}
+			}
+			r.Check(good, "E2.types", tn, p.Pos(o.Pos()), fmt.Sprintf("%s is %s", tn, o.Type().Underlying()), fmt.Sprintf("type %s is %s: %s", tn, o.Type().Underlying(), why))
+		}
+	}
 	r.Floor("E2(functions)", len(fns), 5)
 	d := &dimCtx{p: p, e: e, memo: map[ssa.Value]int{}, busy: map[ssa.Value]bool{}, retMemo: map[*ssa.Function]int{}, retBusy: map[*ssa.Function]bool{}, bad: map[ssa.Value]string{}}
 	nSinks, nIdx := 0, 0
@@ -922,6 +944,28 @@ func checkPatcherDiscipline(e *Env, p *load.Program) {
 		}
 	}
 
+	// ---- the patcher works on the builder it was called on: a copy (`p = p.clone()`) is another object whose index arrays
+	// (the []Index values of the label map are updated in place) may be shared with the receiver; the rules below follow the
+	// receiver, so say so instead of reporting a consequence
+	if len(asm.Params) > 0 {
+		for _, b := range asm.Blocks {
+			for _, in := range b.Instrs {
+				fa, ok := in.(*ssa.FieldAddr)
+				if !ok {
+					continue
+				}
+				if pt, ok := fa.X.Type().Underlying().(*types.Pointer); !ok || !isNamed(pt.Elem(), load.PkgRoot, "Program") {
+					continue
+				}
+				if c, ok := fa.X.(*ssa.Call); ok {
+					r.Unknown("E2.self", "Program.Assemble/works-on-its-receiver", p.Pos(c.Pos()), fmt.Sprintf("Assemble resolves the jumps of the Program returned by %s, not of its receiver: whether that object shares index storage with the receiver (label destinations are moved in place by every insertion, so a second Assemble of the receiver would start from moved labels and unmoved instructions) is not analysed", calleeName(c)))
+					goto selfDone
+				}
+			}
+		}
+		r.OK("E2.self", "Program.Assemble/works-on-its-receiver", "", "every field access of Assemble goes through its receiver")
+	}
+selfDone:
 	// ---- final: skips are read for the matching label after a quiescent pass, no mutation before the store back
 	nFinal := 0
 	var jumpInst *ssa.Alloc
